@@ -697,6 +697,10 @@ def build(spec, bus=None, script=True, system=None, known=None):
     for it in spec['items']:
         i, k = it['id'], it['kind']
         nm = None if default_names else i
+        if it.get('np') and 'ct' in it:
+            # a user who computes the model's parameters with numpy hands over numpy scalars
+            import numpy as _np
+            it = dict(it, ct=_np.float64(it['ct']))
         ups = [w.devs[u] if u in w.devs else known[u] for u in it.get('up', [])]
         if k == 'source':
             gen = cls['HGen'](i, it.get('values', [0]), it.get('qualities', [1]), it.get('batch'), log,
